@@ -42,7 +42,9 @@ if ALT_REPO:
     os.makedirs(SCRATCH + '/sim/.cargo', exist_ok=True)
     with open(SCRATCH + '/sim/.cargo/config.toml', 'w') as _f:
         _f.write(open(SIM + '/.cargo/config.toml').read())
-    if not os.path.exists(SCRATCH + '/sim/src'):
+    if os.path.islink(SCRATCH + '/sim/src') and os.readlink(SCRATCH + '/sim/src') != SIM + '/src':
+        os.remove(SCRATCH + '/sim/src')
+    if not os.path.lexists(SCRATCH + '/sim/src'):
         os.symlink(SIM + '/src', SCRATCH + '/sim/src')
     SIM = SCRATCH + '/sim'
 PARTS = EVID + '/parts'
